@@ -997,6 +997,8 @@ class SysGen:
             ins = []; outs = []
             for pi, ((pn, pstar, plen), (_, _, plen2)) in enumerate(zip(ports, ports2)):
                 cands = [s for s in sig_order if sigs[s] == (plen, plen2)]
+                mine = [x[0] for x in ins + outs]
+                if rng.random() < 0.9: cands = [s for s in cands if s not in mine]    # rarely bind one signal to two ports of one instance
                 if cands and rng.random() < 0.4:
                     s = rng.choice(cands)
                 else:
